@@ -344,6 +344,14 @@ func (r *Run) c05Statuses(trans string, jsonCodec bool) {
 			if st%3 == 0 {
 				body = []byte{0xff, 0xfe, byte(st)}
 			}
+			if st%5 == 1 { // an error body whose beginning decodes and whose end does not: the fallback applies as a whole
+				if jsonCodec {
+					body = []byte(fmt.Sprintf(`{"code":%d,"msg":17}`, 40+int(st)))
+				} else {
+					full := errBody(uint64(40+int(st)), "boom-boom")
+					body = full[:len(full)-2]
+				}
+			}
 			f := &RefFrame{V: 1, Type: 2, Cmd: 30, Rid: ids[i], Status: st, Body: body, MLenField: -1, BLenField: -1}
 			s.lk.sendFrame(f.encode())
 			events = append(events, fmt.Sprintf("D.%d.2.30.%d.%d.%s", i, i+1, st, hx(body)), fmt.Sprintf("F%d", i))
